@@ -56,7 +56,7 @@ RUN_STICKY = {
     "Reqs": [V(1, 1), V(1, 2, meth="POST"), V(1), V(1, meth="POST", path="priv"), V(2, 2), V(2)],
     "StickyVals": [OFF, F("all"), F("get"), BAD],
     "BlockVals": [[R(F("hasauth"), 403)], [R(F("all"), 444)]],
-    "BoolOpts": frozenset(), "Dns": [], "FirstMatchOnly": False,
+    "BoolOpts": frozenset(), "Dns": [], "KillEndsLoop": True, "EmptyEntryRefused": True,
 }
 RUN_REWRITE = {
     "Reqs": [V(inm=True, ae="compressed"), V(inm=True, ims=True, ae="identity", meth="POST"),
@@ -69,28 +69,28 @@ RUN_REWRITE = {
     "BlockVals": [[], [R(F("priv"), 403)], [R(F("all"), 444)], [R(F("get"), 404), R(F("priv"), 403)],
                   [R(F("host", 1, neg=True), 451), R(F("inm"), 444)], [R(F("inm"), 444), R(F("get"), 204)],
                   [R(F("post"), 500), R(F("all"), 200, "segments")], [R(F("all"), 0, "status")], [R(BAD, 403)]],
-    "BoolOpts": frozenset({"anticache", "anticomp"}), "Dns": [], "FirstMatchOnly": False,
+    "BoolOpts": frozenset({"anticache", "anticomp"}), "Dns": [], "KillEndsLoop": True, "EmptyEntryRefused": True,
 }
-# the two findings of the unchanged tree live in a run of their own (see findings_proposed/X07.md)
+# the scenarios of the two repaired findings (findings_proposed/X07.md) have a run of their own
 RUN_BLOCKBUGS = {
     "Reqs": [V(path="priv"), V(meth="POST"), V(meth="PRI", path="star", ver="h2")],
     "StickyVals": [],
     "BlockVals": [[R(F("all"), 444), R(F("get"), 444)], [R(F("get"), 444), R(F("priv"), 403), R(F("all"), 444)],
                   [R(F("post"), 403), R(F("all"), 0, "empty")], [R(F("priv"), 404)]],
-    "BoolOpts": frozenset(), "Dns": [], "FirstMatchOnly": False,
+    "BoolOpts": frozenset(), "Dns": [], "KillEndsLoop": True, "EmptyEntryRefused": True,
 }
 RUN_DNS = {
     "Reqs": [], "StickyVals": [], "BlockVals": [],
     "BoolOpts": frozenset({"strip_ech", "http3"}),
     "Dns": [[H(True, ["h2", "h3"])], [OTHER, H(True), H(True, ["h3"])], [H(False, ["h3", "h3-29"])], [H()], [OTHER],
             [H(False, ["h2", "http/1.1"]), H(True, ["h3-29", "h2"])], []],
-    "FirstMatchOnly": False,
+    "KillEndsLoop": True, "EmptyEntryRefused": True,
 }
 RUN_BIG = {      # thorough tier: everything in one history (exhaustive without dump + simulated behaviours)
     "Reqs": RUN_STICKY["Reqs"] + RUN_REWRITE["Reqs"],
     "StickyVals": RUN_STICKY["StickyVals"] + [F("priv", neg=True), F("host", 2), F("hasauth", neg=True)],
     "BlockVals": RUN_STICKY["BlockVals"] + RUN_REWRITE["BlockVals"],
-    "BoolOpts": frozenset({"anticache", "anticomp", "strip_ech", "http3"}), "Dns": RUN_DNS["Dns"], "FirstMatchOnly": False,
+    "BoolOpts": frozenset({"anticache", "anticomp", "strip_ech", "http3"}), "Dns": RUN_DNS["Dns"], "KillEndsLoop": True, "EmptyEntryRefused": True,
 }
 RUNS = [("sticky", RUN_STICKY, 4, 5), ("rewrite", RUN_REWRITE, 3, 4), ("blockbugs", RUN_BLOCKBUGS, 3, 4), ("dns", RUN_DNS, 4, 5)]
 
@@ -392,7 +392,8 @@ class Check(core.PropertyCheck):
         "auth_skip_off", "auth_seen_while_off", "sticky_reconfigured", "refused_stickyauth",
         "cache_stripped", "cache_stripped_both", "cache_left_off", "comp_replaced", "comp_added", "comp_left_off",
         "block_status", "block_kill", "block_none_matched", "block_multi", "block_multi_mixed", "block_skip_not_live",
-        "block_skip_answered", "block_reconfigured", "refused_block_list", "obs:last_rule_wins",
+        "block_skip_answered", "block_reconfigured", "refused_block_list", "obs:last_rule_wins", "block_two_kills",
+        "refused_form_empty", "refused_form_segments", "refused_form_status", "refused_form_filter",
         "h2c_stripped", "h2c_no_connection", "h2c_no_settings", "other_upgrade_kept", "preface_killed",
         "preface_not_killable", "pri_but_no_preface",
         "ech_stripped", "ech_left_off", "ech_two_records", "dns_other_record", "alpn_mixed_http3_off",
@@ -500,7 +501,7 @@ class Check(core.PropertyCheck):
                     if y < 0.04:
                         rules.append(R(BAD, 403))
                     elif y < 0.10:
-                        rules.append(R(F("all"), 0, rng.choice(["segments", "status"])))
+                        rules.append(R(F("all"), 0, rng.choice(["segments", "status", "empty"])))
                     else:
                         rules.append(R(self.random_filter(rng, nhosts), rng.choice(STATUSES)))
                 ops.append(["bl", rules, salt])
